@@ -36,7 +36,7 @@ def gen_cfg(rng, K):
     }
 
 
-def shape_offsets(rng, n_nodes, size):
+def shape_offsets(rng, n_nodes, size, degenerate=None):
     """A rigid-ish body: node offsets around the animal's centre."""
     offs = []
     for j in range(n_nodes):
@@ -45,6 +45,10 @@ def shape_offsets(rng, n_nodes, size):
         # make sure the body has a non-degenerate bounding box
         offs[0] = [-size, -size]
         offs[1] = [size, size]
+    if degenerate == "vertical":
+        offs = [[0.0, o[1]] for o in offs]  # every node on one vertical line: zero-width bounding box
+    elif degenerate == "horizontal":
+        offs = [[o[0], 0.0] for o in offs]
     return offs
 
 
